@@ -18,6 +18,11 @@ import os
 LEVEL = "exploration"
 
 
+ENTRIES = ["unmarshal", "irb_set_slice", "irb_clear_slice", "irb_set_btree", "irb_clear_btree", "frag_open",
+           "api_import_set", "api_import_clear", "api_import_views", "http_import_set", "http_import_clear",
+           "api_query", "http_query", "api_msg", "http_msg", "gossip_msg", "gossip_merge"]
+
+
 def run(ctx):
     thorough = ctx.tier == "thorough"
     ctx.rule = ("case = (entry point, abstract valid encoding [format, 1-3 containers of type array/bitmap/run, "
@@ -72,4 +77,15 @@ def run(ctx):
                 for line in f:
                     out.write(line)
     ctx.exhaustive = False
-    ctx.drive("bind/malb", "TestC06", beh=allb, label="C06/all", timeout=3000)
+    res = ctx.drive("bind/malb", "TestC06", beh=allb, label="C06/all", timeout=3000)
+    if res is not None and not res.get("failures"):
+        # vacuity: every entry point was exercised, and both outcome classes were seen at
+        # every entry point that reports one
+        cov = res.get("coverage") or {}
+        for e in ENTRIES:
+            if not cov.get("entry:" + e):
+                ctx.inconclusive.append("no case reached entry point %s" % e)
+            elif not e.startswith("gossip_"):
+                for cl in ("accepted", "rejected"):
+                    if not cov.get("class:%s:%s" % (e, cl)):
+                        ctx.inconclusive.append("entry point %s never answered %s" % (e, cl))
